@@ -1110,8 +1110,8 @@ Structure read_pdb_from_stream(AnyStream& line_reader, const std::string& source
       }
 
     } else if (is_record_type4(line, "HEADER")) {
-      if (len > 50)
-        st.info["_struct_keywords.pdbx_keywords"] = rtrim_str(std::string(line+10, 40));
+      if (len > 10)
+        st.info["_struct_keywords.pdbx_keywords"] = read_string(line+10, 40);
       if (len > 59) { // date in PDB has format 28-MAR-07
         std::string date = pdb_date_format_to_iso(std::string(line+50, 9));
         if (!date.empty())
